@@ -25,6 +25,10 @@ RULES = {
     "R-MANYMUT": ("rules.iters", "r_manymut"),
     "R-CURSOR-STATE": ("rules.iters", "r_cursor_state"),
     "R-REHASH-LOOP": ("rules.iters", "r_rehash_loop"),
+    "R-ARITH": ("rules.arith", "r_arith"),
+    "R-GROUP-CONSTS": ("rules.arith", "r_group_consts"),
+    "R-HASH-TAINT": ("rules.arith", "r_hash_taint"),
+    "R-INDEX-BOUNDED": ("rules.arith", "r_index_bounded"),
     "R-ACCT": ("rules.acct", "r_acct"),
     "R-CTRL-WRITE": ("rules.acct", "r_ctrl_write"),
     "R-ERASE-BEFORE": ("rules.ownership", "r_erase_before"),
@@ -131,6 +135,59 @@ PROPS["C05"] = {
     "decided": "probe termination never depends on eq/hash answers, only on an EMPTY byte (R-PROBE-STOP) whose existence is the free-slot accounting (R-ACCT); aliasing in get_many_mut is decided by pointer identity, not by the user's eq (R-MANYMUT); "
                "no accounting store depends on an eq answer (R-EQ-NOEFFECT); a slot found before a rehash is never used after it (R-SLOT-FRESH); iteration is bounded by items (R-ITEMS-GUARD)",
     "not_decided": "that len() equals the number of elements yielded under inconsistent hashes in rehash_in_place (loop logic over runtime control bytes); R-HASH-TAINT is added below when built",
+}
+
+PROPS["C02"] = {
+    "rules": ["R-ITEMS-GUARD", "R-CURSOR-STATE", "R-ACCT", "R-DROPGLUE", "R-WINDOW", "R-BULKDROP-GUARD", "R-INFALLIBLE", "R-FIELD-IMMUT", "R-LAYOUT-SOURCE", "R-ARITH",
+              "R-HASH-TAINT", "R-INDEX-BOUNDED", "R-GROUP-CONSTS", "R-CTRL-WRITE", "R-DRAIN-PROTOCOL", "R-SINGLETON-GUARD", "R-SLOT-PROVENANCE", "R-SLOT-FRESH", "R-BUCKET-FRESH",
+              "R-RESERVE-FIRST", "R-ERASE-BEFORE", "R-SIG-REGION", "R-MUT-FROM-MUT", "R-MANYMUT", "R-RAW-ESCAPE"],
+    "level": "other",
+    "decided": "necessary conditions of memory safety, each of which, if broken, yields undefined behaviour for some safe program: count-bounded group walks are bounded by items and items equals the number of FULL bytes on every path static analysis can see "
+               "(R-ITEMS-GUARD, R-CURSOR-STATE, R-ACCT, R-DROPGLUE, R-WINDOW, R-BULKDROP-GUARD); every unreachable_unchecked after an infallible call / re-derived layout is unreachable (R-INFALLIBLE, R-FIELD-IMMUT, R-LAYOUT-SOURCE); "
+               "from_size_align_unchecked gets the guarded length and the element-aware alignment (R-ARITH); hash bits never index unmasked and every index handed to a bucket/control accessor is bounded by construction (R-HASH-TAINT, R-INDEX-BOUNDED); "
+               "back-end width/stride/mask constants agree (R-GROUP-CONSTS); mirrored control bytes (R-CTRL-WRITE); leak-safety of drains (R-DRAIN-PROTOCOL); the static singleton is never freed (R-SINGLETON-GUARD); "
+               "insert slots and buckets are never stale (R-SLOT-PROVENANCE, R-SLOT-FRESH, R-BUCKET-FRESH, R-RESERVE-FIRST); no slot reference outlives or aliases a mutation (R-SIG-REGION, R-MUT-FROM-MUT, R-MANYMUT); raw handles do not escape (R-RAW-ESCAPE)",
+    "not_decided": "the property as a whole (no sequence of safe calls causes UB); the three unwrap_unchecked that rest on the load-factor invariant, ZST pseudo-pointers and the values of index arithmetic are audited only",
+}
+
+PROPS["C17"] = {
+    "rules": ["R-ARITH", "R-HASH-TAINT", "R-GROUP-CONSTS"],
+    "level": "other",
+    "decided": "the overflow clause as far as it is a shape property: every addition/multiplication on a size or capacity value in the sizing functions is a checked_* call whose None is branched on, or one of 7 reviewed allow-listed forms with a bound argument; "
+               "the length given to Layout::from_size_align_unchecked is the very value compared against isize::MAX - (align - 1); ctrl_align is max(align_of::<T>(), Group::WIDTH) and is the alignment passed; the probe position is re-masked after every stride (R-HASH-TAINT); back-end constants (R-GROUP-CONSTS)",
+    "not_decided": "every numeric clause: power of two, usable capacity >= request and < bucket count, that the probe sequence visits every group once; these need bit-precise evaluation over 2^64 inputs, outside this family",
+}
+
+PROPS["C13"] = {
+    "rules": ["R-REHASH-DECISION", "R-ACCT", "R-PROBE-STOP", "R-DROPGLUE", "R-WINDOW", "R-RESERVE-GUARD"],
+    "level": "other",
+    "decided": "the three reclaiming mechanisms exist on the paths where they must: reserve_rehash_inner reaches both in-place rehash and resize on opposite arms of a comparison of items + additional against the 7/8 capacity, not of growth_left (R-REHASH-DECISION); "
+               "tombstone reuse costs no capacity, only a slot restored to EMPTY gives capacity back, growth_left is always recomputed from bucket_mask_to_capacity (R-ACCT); probe termination rests on an EMPTY byte (R-PROBE-STOP); the EMPTY reserve promised by growth_left is not corrupted by unwinding (R-DROPGLUE, R-WINDOW); growth only when room is insufficient (R-RESERVE-GUARD)",
+    "not_decided": "the memory bound and its constant; termination as such (it follows from the accounting only together with the numeric load-factor invariant)",
+}
+
+PROPS["C08"] = {
+    "rules": ["R-NOALLOC-REACH", "R-RESERVE-GUARD", "R-LAYOUT-SOURCE", "R-FIELD-IMMUT", "R-LINEAR-INNER", "R-ACCT", "R-WINDOW"],
+    "level": "other",
+    "decided": "new/default/with_capacity(0) cannot reach the allocator and clear/drain keep the allocation (R-NOALLOC-REACH); no allocation while additional <= growth_left, insert grows only when growth_left == 0 and the slot is EMPTY, capacity() = items + growth_left (R-RESERVE-GUARD); "
+               "allocation_size() reports the size of the very layout the block was allocated with (R-LAYOUT-SOURCE, R-FIELD-IMMUT); shrink_to releases the old table on every path (R-LINEAR-INNER); clear recomputes growth_left from the bucket mask, replace_bucket_with restores it (R-ACCT); shrinking moves elements only through the guarded resize (R-WINDOW)",
+    "not_decided": "the numeric clauses: capacity() >= len()+n after reserve(n), shrink bounds, 'no larger than a fresh with_capacity'",
+}
+
+PROPS["C14"] = {
+    "rules": ["R-RESERVE-FIRST", "R-ENTRY-NOEFFECT", "R-BUCKET-FRESH", "R-SLOT-FRESH", "R-RESERVE-GUARD", "R-ACCT", "R-WINDOW", "R-ERASE-BEFORE", "R-SIG-REGION", "R-MUT-FROM-MUT"],
+    "level": "other",
+    "decided": "rustc_entry reserves before creating a Vacant entry and insert_no_grow is reachable only from it (R-RESERVE-FIRST, code the baseline never compiles); creating an entry reaches no table mutation (except reserve for HashTable::entry / rustc_entry), so an unused Vacant entry changes nothing (R-ENTRY-NOEFFECT); "
+               "an Occupied entry never holds a bucket found before a rehash (R-BUCKET-FRESH); Vacant inserts go through RawTable::insert whose growth condition is intact (R-RESERVE-GUARD, R-SLOT-FRESH); replace_bucket_with removes before calling the closure and restores control byte and growth_left (R-ERASE-BEFORE, R-ACCT, R-WINDOW); entry types borrow the map exclusively (R-SIG-REGION, R-MUT-FROM-MUT)",
+    "not_decided": "equality of return values with the plain get/insert/remove API (runtime)",
+}
+
+PROPS["C06"] = {
+    "rules": ["R-RESERVE-FIRST", "R-SLOT-FRESH", "R-PROBE-STOP", "R-ACCT", "R-CTRL-WRITE", "R-MANYMUT", "R-FORWARD", "R-ENTRY-NOEFFECT"],
+    "level": "other",
+    "decided": "find_or_find_insert_slot reserves before searching (R-RESERVE-FIRST); the slot of a VacantEntry is consumed before any other mutation and insert_in_slot re-reads the slot's control byte (R-SLOT-FRESH); iter_hash stops exactly where find stops: on EMPTY, never on a tombstone (R-PROBE-STOP); "
+               "tombstone reuse by insert_unique costs no capacity (R-ACCT); mirrored control bytes (R-CTRL-WRITE); HashTable::get_many_mut goes through the checked path (R-MANYMUT); the seven table iterators forward to the raw cursor (R-FORWARD)",
+    "not_decided": "the multiset equality and iter_hash completeness (runtime); is_in_same_group's arithmetic",
 }
 
 NOT_APPLICABLE = {
